@@ -304,9 +304,22 @@ NOTES = (("init", "the loop is reached without an exception from every entry sta
          ("total", "every iteration either breaks or continues (paths cover the guard)"))
 
 
+def _structure_guard(sub):
+    """when an iteration of some branch does not have the shape the loop contract abstracts (the M-step is not called in the abstracted
+    form: another signature, an inner loop of the same function taken for the training loop, ...), the predicates extracted from
+    that branch mean nothing: the refutations derived from them are withdrawn to 'undecided' (the native replay decides)"""
+    if any(c.status == "undecided" and "abstracted form" in (c.detail or "") for c in sub):
+        for c in sub:
+            if c.status == "refuted" and ".loop." in c.name:
+                c.status = "undecided"
+                c.detail = "[loop structure not recognised in one branch] " + (c.detail or "")
+    return sub
+
+
 def gmm_fit_loop(prefix, trainer="ml", has_thr=True, has_max=True):
     sub = []
     one_config(prefix, trainer, has_thr, has_max, sub)
+    _structure_guard(sub)
     tag = "[thr=%s,max=%s]" % ("set" if has_thr else "None", "set" if has_max else "None")
     res = []
     for nm, note in NOTES:
@@ -438,7 +451,9 @@ def one_config(prefix, trainer, has_thr, has_max, out):
                 for avg in r.get("avg_terms", []):
                     V.compare_terms(P(avg), P(exp_avg), F, prefix + ".loop.body.criterion", cl)
                 if not r.get("avg_terms"):
-                    cl.append(Clause(prefix + ".loop.body", "refuted", "npsym", "%s: m_step not called in the iteration" % label))
+                    # the iteration does not go through gmm.m_step with the signature the loop contract abstracts: nothing the
+                    # contract says about the body can be compared -- undecided (the native replay of the training loop decides)
+                    cl[:] = [Clause(prefix + ".loop.body", "undecided", "npsym", "%s: the iteration does not call m_step in the abstracted form" % label)]
                 for c in cl:
                     c.detail = "%s (%s iteration): %s" % (label, phase, c.detail)
                     c.name = prefix + ".loop.body"
@@ -514,7 +529,7 @@ def kmeans_fit_loop(prefix, has_thr=True, has_max=True):
                     probe.inductive(r, F.extend(pc), label, cl, prefix + ".loop.body")
                 m = r["machine"]
                 amd = m.fields.get("average_min_distance")
-                if not (isinstance(amd, Poly) and T.equal(amd, T.sym(GenericProbe.LNEW))):
+                if r.get("avg_terms") and not (isinstance(amd, Poly) and T.equal(amd, T.sym(GenericProbe.LNEW))):
                     cl.append(Clause(prefix + ".loop.body", "refuted", "npsym", "%s: reported average_min_distance is %r, not the M-step's criterion" % (label, amd)))
                 xs, mu = KM.mk_data(), KM.mk_means()
                 exp_means, exp_crit = KM.spec_m_step(None, [KM.spec_e_step(None, xs, mu)], KM.Nn)
@@ -524,13 +539,14 @@ def kmeans_fit_loop(prefix, has_thr=True, has_max=True):
                 for ns in r.get("n_samples", []):
                     V.compare_terms(P(ns), KM.Nn, F, prefix + ".loop.body.n_samples", cl)
                 if not r.get("avg_terms"):
-                    cl.append(Clause(prefix + ".loop.body", "refuted", "npsym", "%s: m_step not called" % label))
+                    cl[:] = [Clause(prefix + ".loop.body", "undecided", "npsym", "%s: the iteration does not call m_step in the abstracted form" % label)]
                 for c in cl:
                     c.detail = "%s (%s iteration): %s" % (label, phase, c.detail)
                     c.name = prefix + ".loop.body"
                 sub += cl
     if recs:
         finish_vcs(prefix, recs, F, has_thr, has_max, sub, "guard == (max_iter is None or completed iterations < max_iter)")
+    _structure_guard(sub)
     tag = "[thr=%s,max=%s]" % ("set" if has_thr else "None", "set" if has_max else "None")
     res = []
     for nm, note in NOTES:
